@@ -7,6 +7,7 @@ import (
 	"regexp"
 	"strconv"
 	"strings"
+	"unicode/utf8"
 
 	"symgo/smt"
 )
@@ -257,6 +258,131 @@ func init() {
 		}
 		return s
 	})
+	// UTF-8 coding by definition (the GOROOT versions index 256-entry tables with the input byte)
+	reg("unicode/utf8.DecodeRuneInString", func(fr *frame, a []value) value {
+		bs := strBytes(a[0])
+		if len(bs) == 0 {
+			return tuple{int32(0xFFFD), 0}
+		}
+		r, n := fr.i.decodeRune(bs)
+		return tuple{r, n}
+	})
+	reg("unicode/utf8.DecodeRune", func(fr *frame, a []value) value {
+		bs := a[0].([]value)
+		if len(bs) == 0 {
+			return tuple{int32(0xFFFD), 0}
+		}
+		r, n := fr.i.decodeRune(bs)
+		return tuple{r, n}
+	})
+	reg("unicode/utf8.RuneLen", func(fr *frame, a []value) value {
+		i := fr.i
+		if c, ok := a[0].(int32); ok {
+			return utf8.RuneLen(c)
+		}
+		st := i.st
+		t := i.term(a[0])
+		c32 := func(v uint64) *smt.Term { return st.Const(smt.BV(32), v) }
+		switch {
+		case i.decide(st.BVCmp("bvslt", t, c32(0))):
+			return -1
+		case i.decide(st.BVCmp("bvult", t, c32(0x80))):
+			return 1
+		case i.decide(st.BVCmp("bvult", t, c32(0x800))):
+			return 2
+		case i.decide(st.And(st.BVCmp("bvuge", t, c32(0xD800)), st.BVCmp("bvule", t, c32(0xDFFF)))):
+			return -1
+		case i.decide(st.BVCmp("bvult", t, c32(0x10000))):
+			return 3
+		case i.decide(st.BVCmp("bvule", t, c32(0x10FFFF))):
+			return 4
+		}
+		return -1
+	})
+	reg("unicode/utf8.AppendRune", func(fr *frame, a []value) value {
+		return fr.i.appendSlice(a[0].([]value), fr.i.encodeRune(a[1]), types.Typ[types.Uint8])
+	})
+	reg("unicode/utf8.EncodeRune", func(fr *frame, a []value) value {
+		i := fr.i
+		p := a[0].([]value)
+		enc := i.encodeRune(a[1])
+		if len(p) < len(enc) {
+			i.guestPanic("index out of range (utf8.EncodeRune)")
+		}
+		for k, b := range enc {
+			i.setCellChecked(&p[k], b)
+		}
+		return len(enc)
+	})
+	reg("unicode/utf8.RuneCountInString", func(fr *frame, a []value) value {
+		bs := strBytes(a[0])
+		n := 0
+		for p := 0; p < len(bs); n++ {
+			_, k := fr.i.decodeRune(bs[p:])
+			p += k
+		}
+		return n
+	})
+	reg("unicode/utf8.RuneCount", func(fr *frame, a []value) value {
+		bs := a[0].([]value)
+		n := 0
+		for p := 0; p < len(bs); n++ {
+			_, k := fr.i.decodeRune(bs[p:])
+			p += k
+		}
+		return n
+	})
+	reg("unicode/utf8.ValidString", func(fr *frame, a []value) value {
+		bs := strBytes(a[0])
+		for p := 0; p < len(bs); {
+			r, k := fr.i.decodeRune(bs[p:])
+			if k == 1 {
+				if fr.condBool(fr.i.equals(nil, r, int32(0xFFFD))) {
+					return false
+				}
+			}
+			p += k
+		}
+		return true
+	})
+	reg("unicode/utf8.ValidRune", func(fr *frame, a []value) value {
+		i := fr.i
+		st := i.st
+		t := i.term(a[0])
+		c32 := func(v uint64) *smt.Term { return st.Const(smt.BV(32), v) }
+		ok := st.Or(st.BVCmp("bvult", t, c32(0xD800)), st.And(st.BVCmp("bvugt", t, c32(0xDFFF)), st.BVCmp("bvule", t, c32(0x10FFFF))))
+		return i.symBool(ok)
+	})
+
+	// substring search by definition (the GOROOT versions go through assembler or Rabin-Karp
+	// hashing, whose multiplications are a poor fit for bit-blasting)
+	indexOf := func(fr *frame, s, sub []value) value {
+		i := fr.i
+		n, m := len(s), len(sub)
+		for k := 0; k+m <= n; k++ {
+			if fr.condBool(i.strEq(symstr{s[k : k+m]}, symstr{sub})) {
+				return k
+			}
+		}
+		return -1
+	}
+	reg("strings.Index", func(fr *frame, a []value) value { return indexOf(fr, strBytes(a[0]), strBytes(a[1])) })
+	reg("bytes.Index", func(fr *frame, a []value) value { return indexOf(fr, a[0].([]value), a[1].([]value)) })
+	reg("internal/stringslite.Index", func(fr *frame, a []value) value { return indexOf(fr, strBytes(a[0]), strBytes(a[1])) })
+	reg("internal/bytealg.IndexString", func(fr *frame, a []value) value { return indexOf(fr, strBytes(a[0]), strBytes(a[1])) })
+	reg("internal/bytealg.Index", func(fr *frame, a []value) value { return indexOf(fr, a[0].([]value), a[1].([]value)) })
+	lastIndexOf := func(fr *frame, s, sub []value) value {
+		i := fr.i
+		n, m := len(s), len(sub)
+		for k := n - m; k >= 0; k-- {
+			if fr.condBool(i.strEq(symstr{s[k : k+m]}, symstr{sub})) {
+				return k
+			}
+		}
+		return -1
+	}
+	reg("strings.LastIndex", func(fr *frame, a []value) value { return lastIndexOf(fr, strBytes(a[0]), strBytes(a[1])) })
+	reg("bytes.LastIndex", func(fr *frame, a []value) value { return lastIndexOf(fr, a[0].([]value), a[1].([]value)) })
 	reg("internal/stringslite.Clone", func(fr *frame, a []value) value { return a[0] })
 	reg("strings.Clone", func(fr *frame, a []value) value { return a[0] })
 	reg("unsafe.String", func(fr *frame, a []value) value { panic(unsupported("unsafe.String")) })
